@@ -24,6 +24,7 @@ import shutil
 import stat
 import sys
 import tempfile
+import time
 
 import numpy as np
 
@@ -33,20 +34,20 @@ from harness.common import lean_batch as _lean_batch
 THEOREMS = [
     "IrVerif.AtomicSave.C08_crash",
     "IrVerif.AtomicSave.C08_exception",
+    "IrVerif.AtomicSave.C08_exception_multi",
+    "IrVerif.AtomicSave.C08_crash_writer",
     "IrVerif.AtomicSave.C08_new_is_image",
     "IrVerif.AtomicSave.C08_crash_serial",
     "IrVerif.AtomicSave.C08_exception_serial",
+    "IrVerif.AtomicSave.C08_post_samefile",
     "IrVerif.AtomicSave.C08_invalidate_only_if",
     "IrVerif.AtomicSave.C08_invalidate_iff",
-    "IrVerif.AtomicSave.C08_overwritten_spec",
-    "IrVerif.AtomicSave.C08_invalidated_spec",
-    "IrVerif.AtomicSave.C08_invalidated_sub",
-    "IrVerif.AtomicSave.C08_post_samefile",
+    "IrVerif.AtomicSave.C08_destination_resolved",
     "IrVerif.AtomicSave.C08_sharded_no_touch",
-    "IrVerif.AtomicSave.C08_cleanup_gap",
     "IrVerif.AtomicSave.C08_unload_crash",
     "IrVerif.AtomicSave.C08_unload_fs_frame",
-    "IrVerif.AtomicSave.C08_small_loaded_first",
+    "IrVerif.AtomicSave.C08_unload_exception",
+    "IrVerif.AtomicSave.C08_unload_exception_multi",
 ]
 ASSUMPTIONS = [
     "os.replace is atomic; tempfile.mkdtemp returns a directory that did not exist (built into the model's Path type; "
@@ -78,6 +79,10 @@ class Injected(OSError):
     pass
 
 
+class InjectedBase(BaseException):
+    """KeyboardInterrupt/SystemExit-like: not an Exception, so `except Exception` / `except OSError` do not see it."""
+
+
 def _as_list(f) -> list:
     """A fault is None, one (k, p), or a tuple of (k, p) pairs (several effects fail in one run)."""
     if f is None:
@@ -106,21 +111,30 @@ class Shim:
         self.mode = mode
         self.tmpdir = None  # what mkdtemp returned
         self.expect = {}  # dest_dir, base
+        self.payload: dict = {}  # event index -> bytes of a write
+        self.nw = 0  # handles opened by workers of the parallel writer
+        self.dest_seen: list = []  # destination paths the code derived (from the mkdtemp arguments)
         import threading
 
         self.lock = threading.Lock()
 
-    def point(self, ev, partial=None):
+    def point(self, ev, partial=None, payload=None):
         with self.lock:
             idx = self.n
             self.n += 1
             failed = idx in self.faults
             self.events.append(list(ev) + [failed])
+            if payload is not None:
+                self.payload[idx] = payload
         if failed:
             if partial is not None:
                 partial(self.faults[idx])
-            if self.mode == "crash":
+            if self.mode == "crash" or (self.mode == "exn-crash" and idx == max(self.faults)):
                 os._exit(CRASH_RC)
+            if self.mode == "base":
+                raise InjectedBase("injected fault")
+            if self.mode == "fnf":
+                raise FileNotFoundError(errno.ENOENT, "injected fault")
             raise Injected(errno.ENOSPC, "injected fault")
 
 
@@ -128,11 +142,15 @@ class CountingFile:
     """File object handed to the writer: every seek/write/close is an effect. No fileno(): every
     byte goes through write() (the kernel-copy and numpy fast paths are not taken)."""
 
-    def __init__(self, shim: Shim, f):
-        self._s, self._f, self._closed = shim, f, False
+    def __init__(self, shim: Shim, f, wid=None):
+        self._s, self._f, self._closed, self._wid = shim, f, False, wid
+
+    def _ev(self, name):
+        """Events of a worker handle of the parallel writer carry the handle number."""
+        return [name] if self._wid is None else [name + "w", self._wid]
 
     def seek(self, off, whence=0):
-        self._s.point(["seek", off])
+        self._s.point(self._ev("seek") + [off])
         return self._f.seek(off, whence)
 
     def write(self, b):
@@ -142,7 +160,7 @@ class CountingFile:
             self._f.write(b[:p])
             self._f.flush()
 
-        self._s.point(["write", len(b)], part)
+        self._s.point(self._ev("write") + [len(b)], part, payload=b)
         return self._f.write(b)
 
     def truncate(self, n=None):
@@ -163,7 +181,7 @@ class CountingFile:
         def part(_p):
             self._f.close()
 
-        self._s.point(["close"], part)
+        self._s.point(self._ev("close"), part)
         self._f.close()
 
     def __enter__(self):
@@ -184,6 +202,14 @@ class CountingFileFD(CountingFile):
 
     def fileno(self):
         return self._f.fileno()
+
+
+def _quiet(fn, *a):
+    """FileNotFoundError injection = "it is already gone": perform the removal, then report ENOENT."""
+    try:
+        fn(*a)
+    except OSError:
+        pass
 
 
 class _Proxy:
@@ -217,6 +243,8 @@ def install(shim: Shim):
             and prefix == "." + shim.expect["base"] + "."
             and suffix is None
         )
+        if dir is not None and prefix:
+            shim.dest_seen.append(os.path.normpath(os.path.join(dir, prefix[1:-1])))
         shim.point(["mkdtemp"] if ok else ["mkdtemp!", str(prefix), str(dir)])
         before = set(os.listdir(dir))
         r = tempfile.mkdtemp(suffix=suffix, prefix=prefix, dir=dir)
@@ -230,11 +258,13 @@ def install(shim: Shim):
         return os.replace(a, b)
 
     def remove(a):
-        shim.point(["remove"] if canon(a) == "T/F" else ["remove!", canon(a)])
+        gone = (lambda _p: _quiet(os.remove, a)) if shim.mode == "fnf" else None
+        shim.point(["remove"] if canon(a) == "T/F" else ["remove!", canon(a)], gone)
         return os.remove(a)
 
     def rmdir(a):
-        shim.point(["rmdir"] if canon(a) == "T" else ["rmdir!", canon(a)])
+        gone = (lambda _p: _quiet(os.rmdir, a)) if shim.mode == "fnf" else None
+        shim.point(["rmdir"] if canon(a) == "T" else ["rmdir!", canon(a)], gone)
         return os.rmdir(a)
 
     def copymode(a, b, **kw):
@@ -244,8 +274,14 @@ def install(shim: Shim):
 
     def sopen(path, mode="r", *a, **kw):
         c = canon(path)
-        shim.point(["open"] if (c, mode) == ("T/F", "wb") else ["open!", c, mode])
         cls = CountingFileFD if shim.expect.get("fd") else CountingFile
+        if (c, mode) == ("T/F", "r+b"):  # a worker of the parallel writer opens its own handle
+            with shim.lock:
+                wid = shim.nw
+                shim.nw += 1
+            shim.point(["openw", wid])
+            return cls(shim, open(path, mode, *a, **kw), wid)
+        shim.point(["open"] if (c, mode) == ("T/F", "wb") else ["open!", c, mode])
         return cls(shim, open(path, mode, *a, **kw))
 
     def other(mod, fname):
@@ -261,6 +297,10 @@ def install(shim: Shim):
     os_over.update(replace=replace, remove=remove, rmdir=rmdir)
     sh_over = {n: other(shutil, n) for n in ("copyfile", "copy", "copy2", "copystat", "move", "rmtree")}
     sh_over.update(copymode=copymode)
+    if shim.expect.get("pathfaults"):
+        # os.path.islink / realpath / exists / samefile as effects and fault points (oracle-only variant)
+        path_over = {n: other(os.path, n) for n in ("islink", "realpath", "exists", "samefile")}
+        os_over["path"] = _Proxy(os.path, **path_over)
     _SAVED.clear()
     for n in ("os", "tempfile", "shutil", "open"):
         _SAVED[n] = ed.__dict__.get(n, _MISSING)
@@ -352,9 +392,14 @@ def resolve(case: dict, name: str) -> str:
     """Root-relative real path of a root-relative name (symlink chains followed; independent of os.path.realpath)."""
     links = _links(case)
     for _ in range(16):
-        if name not in links:
-            return name
-        name = links[name][0]
+        if name in links:
+            name = links[name][0]
+            continue
+        head, _, rest = name.partition("/")
+        if rest and head in links:  # symlinked directory component
+            name = links[head][0] + "/" + rest
+            continue
+        return name
     return name
 
 
@@ -374,9 +419,14 @@ def _build(case: dict, root: str):
     import onnx_ir as ir
 
     inomap: dict = {}
+    for d in case.get("dirs", []):
+        os.makedirs(os.path.join(root, d), exist_ok=True)
     for name, f in case["pre"].items():
         p = os.path.join(root, name)
         os.makedirs(os.path.dirname(p), exist_ok=True)
+        if f.get("dir"):
+            os.makedirs(p, exist_ok=True)
+            continue
         if "link" in f:
             os.link(os.path.join(root, f["link"]), p)
         else:
@@ -386,8 +436,11 @@ def _build(case: dict, root: str):
     for name, target, absolute in case.get("links", []):  # symlinks (chains), relative or absolute text
         p = os.path.join(root, name)
         os.makedirs(os.path.dirname(p), exist_ok=True)
+        os.makedirs(os.path.dirname(os.path.join(root, target)), exist_ok=True)
         os.symlink(os.path.join(root, target) if absolute else os.path.relpath(target, os.path.dirname(name) or "."), p)
-    for name in case["pre"]:
+    for name, f in case["pre"].items():
+        if f.get("dir"):
+            continue
         st = os.stat(os.path.join(root, name))
         inomap.setdefault(st.st_ino, len(inomap))
     objs = []
@@ -445,6 +498,8 @@ def _build(case: dict, root: str):
             o.c08_id = idx
             if e.get("mapped"):
                 o.tobytes()
+            if e.get("invalid"):  # natural failure: the tensor refuses to be read
+                ir.ExternalTensor.invalidate(o)
             try:
                 o.c08_ino = os.stat(o.path).st_ino
             except (OSError, ValueError):
@@ -454,7 +509,10 @@ def _build(case: dict, root: str):
         raise ValueError(k)
 
     for i, t in enumerate(case["tensors"]):
-        objs.append(mk(t, t["id"]))
+        if "same_as" in t:  # the same tensor object under a second initializer name
+            objs.append(objs[t["same_as"]])
+        else:
+            objs.append(mk(t, t["id"]))
     for t in case.get("bystanders", []):
         mk(t, t["id"])
     return objs, exts, inomap
@@ -469,7 +527,7 @@ def _observe(case: dict, root: str, inomap: dict, exts, with_tensors=True) -> di
     """Regular files by root-relative path (inode identity, bytes, mode), symlinks (their text), leftover
     temporary directories (any new dot-directory), anything else."""
     files, tmp, links = {}, [], {}
-    known_dirs = {os.path.dirname(n) for n in list(case["pre"]) + [x[0] for x in case.get("links", [])]} - {""}
+    known_dirs = ({os.path.dirname(n) for n in list(case["pre"]) + [x[0] for x in case.get("links", [])] + [x[1] for x in case.get("links", [])]} | set(case.get("dirs", []))) - {""}
 
     def walk(rel):
         d = os.path.join(root, rel) if rel else root
@@ -530,7 +588,11 @@ def _observe(case: dict, root: str, inomap: dict, exts, with_tensors=True) -> di
 
 
 def _big(case):
-    return [t for t in case["tensors"] if len(t["bytes"]) > case["threshold"]] if case["api"] != "convert" else case["tensors"]
+    """The tensors that are written, in writing order (ir.save: main-graph initializers, then subgraphs')."""
+    if case["api"] == "convert":
+        return case["tensors"]
+    ts = [t for t in case["tensors"] if not t.get("sub")] + [t for t in case["tensors"] if t.get("sub")]
+    return [t for t in ts if len(t["bytes"]) > case["threshold"]]
 
 
 def _invoke(case: dict, root: str, objs) -> None:
@@ -541,6 +603,11 @@ def _invoke(case: dict, root: str, objs) -> None:
     kw = {}
     if case.get("workers"):
         kw["max_workers"] = case["workers"]
+    if case.get("in_flight"):
+        kw["max_in_flight_bytes"] = case["in_flight"]
+    if case.get("alignment"):
+        kw["alignment"] = case["alignment"]
+        kw["align_threshold"] = case["align_threshold"]
     if case["api"] == "convert":
         ed.convert_tensors_to_external(objs, base_dir=root, relative_path=case["dest"], callback=cb, **kw)
         return
@@ -548,7 +615,17 @@ def _invoke(case: dict, root: str, objs) -> None:
         ir.Value(name=t["name"], shape=ir.Shape([len(t["bytes"])]), type=ir.TensorType(ir.DataType.UINT8), const_value=o)
         for t, o in zip(case["tensors"], objs)
     ]
-    g = ir.Graph([], [], nodes=[], initializers=vals, name="g", opset_imports={"": 20})
+    sub = [v for v, t in zip(vals, case["tensors"]) if t.get("sub")]
+    nodes = []
+    if sub:  # initializers of a subgraph (an If branch): model.graphs() yields them after the main graph's
+        vals = [v for v, t in zip(vals, case["tensors"]) if not t.get("sub")]
+        sg = ir.Graph([], [], nodes=[], initializers=sub, name="then")
+        sg2 = ir.Graph([], [], nodes=[], name="else")
+        cond = ir.Value(name="cond", shape=ir.Shape([]), type=ir.TensorType(ir.DataType.BOOL))
+        nodes = [ir.Node("", "If", [cond], attributes=[ir.AttrGraph("then_branch", sg), ir.AttrGraph("else_branch", sg2)], num_outputs=0)]
+        g = ir.Graph([cond], [], nodes=nodes, initializers=vals, name="g", opset_imports={"": 20})
+    else:
+        g = ir.Graph([], [], nodes=[], initializers=vals, name="g", opset_imports={"": 20})
     m = ir.Model(g, ir_version=10)
     if case["api"] == "sharded":
         kw["max_shard_size_bytes"] = case["max_shard"]
@@ -566,8 +643,8 @@ def run_real(case: dict, fault=None, mode="exn") -> dict:
         core._EXTERNAL_TENSOR_COPY_CHUNK_SIZE = case.get("chunk", old_chunk)
         shim = Shim(fault, mode)
         rd = _rdest(case)
-        shim.expect = {"dir": os.path.normpath(os.path.join(root, os.path.dirname(rd))), "base": os.path.basename(rd), "fd": case.get("file") == "fd"}
-        if mode == "crash":
+        shim.expect = {"dir": os.path.normpath(os.path.join(root, os.path.dirname(rd))), "base": os.path.basename(rd), "fd": case.get("file") == "fd", "pathfaults": bool(case.get("pathfaults")), "root": root}
+        if mode in ("crash", "exn-crash"):
             sys.stdout.flush()
             sys.stderr.flush()
             pid = os.fork()
@@ -597,7 +674,7 @@ def run_real(case: dict, fault=None, mode="exn") -> dict:
             _invoke(case, root, objs)
         except Injected:
             raised = "Injected"
-        except Exception as e:  # natural failure
+        except BaseException as e:  # injected BaseException / FileNotFoundError, or a natural failure
             raised = type(e).__name__
         finally:
             uninstall()
@@ -605,6 +682,8 @@ def run_real(case: dict, fault=None, mode="exn") -> dict:
         obs = _observe(case, root, inomap, exts)
         obs["raised"] = raised
         obs["trace"] = shim.events
+        obs["payload"] = {k: list(v) for k, v in shim.payload.items()}
+        obs["dest_seen"] = [os.path.relpath(d, root) if os.path.isabs(d) else d for d in shim.dest_seen]
         for _, o, _ in exts:
             o.release()
         return obs
@@ -623,10 +702,11 @@ def _sharded_expect(shim: Shim, case: dict) -> None:
     real_mkdtemp = ed.tempfile.mkdtemp
 
     def mkdtemp(suffix=None, prefix=None, dir=None):
-        names = [j[0] for j in case["jobs"]]
-        for n in names:
-            if prefix == "." + n + ".":
-                shim.expect["base"] = n
+        for n in [j[0] for j in case["jobs"]]:
+            rn = resolve(case, n)  # a shard name may be a (dangling) symlink: the file behind it is written
+            if prefix == "." + os.path.basename(rn) + ".":
+                shim.expect["base"] = os.path.basename(rn)
+                shim.expect["dir"] = os.path.normpath(os.path.join(shim.expect["root"], os.path.dirname(rn)))
         return real_mkdtemp(suffix=suffix, prefix=prefix, dir=dir)
 
     ed.tempfile = _Proxy(tempfile, mkdtemp=mkdtemp)
@@ -650,17 +730,46 @@ def _tensor_json(t, off, chunk):
     }
 
 
+_ALIGN: list = [None]  # (alignment, align_threshold) of the case being laid out
+
+
 def _layout(ts):
     offs, cur = [], 0
     for t in ts:
+        n = len(t["bytes"])
+        if _ALIGN[0] and n > _ALIGN[0][1]:
+            fac = max(4096, _ALIGN[0][0])
+            cur = (cur + fac - 1) // fac * fac
         offs.append(cur)
-        cur += len(t["bytes"])
+        cur += n
     return offs
 
 
-def model_request(case: dict, faults: list) -> dict:
+_TAIL = ("release", "copymode", "replace", "remove", "rmdir", "invalidate")
+
+
+def writer_of(obs: dict) -> list:
+    """The writer's effects as observed (the thread schedule): everything between mkdtemp and the first
+    effect of the release/copymode/replace/clean-up tail, with the bytes of the writes."""
+    out, started = [], False
+    for k, ev in enumerate(obs["trace"]):
+        name = ev[0]
+        if not started:
+            started = name == "mkdtemp"
+            continue
+        if name.rstrip("!") in _TAIL:
+            break
+        args = list(ev[1:-1])
+        if name in ("write", "writew"):
+            args[-1] = obs["payload"].get(k, obs["payload"].get(str(k), []))
+        out.append([name] + args)
+    return out
+
+
+def model_request(case: dict, faults: list, writer=None) -> dict:
     chunk = case.get("chunk", 1 << 20)
     _CASE[0] = case
+    _ALIGN[0] = (case["alignment"], case["align_threshold"]) if case.get("alignment") else None
     names = list(case["pre"].keys())
     inos: dict = {}
     files, inodes = [], []
@@ -680,7 +789,7 @@ def model_request(case: dict, faults: list) -> dict:
         if t["ext"].get("mapped"):
             src = resolve(case, t["ext"]["file"])
             mapped[t["id"]] = dict(files)[src]
-    universe = sorted(set(names) | {_rdest(case)} | {j[0] for j in case.get("jobs", [])})
+    universe = sorted(set(names) | {_rdest(case)} | {resolve(case, j[0]) for j in case.get("jobs", [])})
     req = {
         "m": "asave.run",
         "dest": _rdest(case),
@@ -699,11 +808,14 @@ def model_request(case: dict, faults: list) -> dict:
     big = _big(case)
     if case["api"] == "sharded":
         req["kind"] = "sharded"
-        req["jobs"] = [[d, [_tensor_json(case["tensors"][i], off, chunk) for i, off in zip(idx, _layout([case["tensors"][i] for i in idx]))]] for d, idx in case["jobs"]]
+        req["jobs"] = [[resolve(case, d), [_tensor_json(case["tensors"][i], off, chunk) for i, off in zip(idx, _layout([case["tensors"][i] for i in idx]))]] for d, idx in case["jobs"]]
     else:
         offs = _layout(big)
         req["tensors"] = [_tensor_json(t, off, chunk) for t, off in zip(big, offs)]
-        if case["api"] == "convert":
+        if writer is not None:
+            req["kind"] = "writer"
+            req["writer"] = writer
+        elif case["api"] == "convert":
             req["kind"] = "save"
         else:
             req["kind"] = "unload"
@@ -750,7 +862,7 @@ def _canon_model_state(st: dict, next0: int, exts_desc) -> dict:
 
 
 def _canon_real_tmp(obs: dict, case) -> list:
-    ok = {os.path.basename(_rdest(case))} | {j[0] for j in case.get("jobs", [])}
+    ok = {os.path.basename(_rdest(case))} | {os.path.basename(resolve(case, j[0])) for j in case.get("jobs", [])}
     return [["T", ["F"] if names else []] if (names == [] or (len(names) == 1 and names[0] in ok)) else ["T", names] for _, names in obs["tmp"]]
 
 
@@ -758,6 +870,7 @@ def _canon_real_tmp(obs: dict, case) -> list:
 
 
 def expected_image(case: dict) -> list:
+    _ALIGN[0] = (case["alignment"], case["align_threshold"]) if case.get("alignment") else None
     big = _big(case)
     buf: list = []
     for t, off in zip(big, _layout(big)):
@@ -789,6 +902,20 @@ def oracle(part, case: dict, obs: dict, fault, mode: str) -> None:
         f = pre[n]
         return pre[f["link"]]["bytes"] if "link" in f else f["bytes"]
 
+    for n, f in pre.items():  # a directory stays a directory
+        if f.get("dir") and obs["files"].get(n, "dir") != "dir":
+            part.fail(f"{where}:directory-replaced", f"pre-existing directory {n!r} is no longer a directory", tag)
+    if pre.get(dest, {}).get("dir"):
+        # the destination is a directory: the save must fail and leave nothing behind
+        if mode not in ("crash", "exn-crash"):
+            if obs["raised"] is None:
+                part.fail(f"{where}:dest-dir-accepted", "saving onto a directory did not raise", tag)
+            cleanup_failed = any(ev[0].rstrip("!") in ("remove", "rmdir") and ev[-1] for ev in obs["trace"])
+            if obs["tmp"] and not cleanup_failed:
+                part.fail(f"{where}:temp-left", "save failed with an exception but a temporary file or directory remains", {**tag, "left": obs["tmp"]})
+        return
+    pre = {n: f for n, f in pre.items() if not f.get("dir")}
+
     # bystander files: never changed, never created
     for n in pre:
         if n == dest and case["api"] != "sharded":
@@ -797,7 +924,7 @@ def oracle(part, case: dict, obs: dict, fault, mode: str) -> None:
         if got is None or got == "dir" or got[1] != pre_bytes(n) or got[0] == "new":
             part.fail(f"{where}:bystander-file-changed", f"pre-existing file {n!r} was changed by the save", tag)
     for n in obs["files"]:
-        if n not in pre and n != dest and n not in [j[0] for j in case.get("jobs", [])]:
+        if n not in pre and n != dest and n not in [resolve(case, j[0]) for j in case.get("jobs", [])]:
             part.fail(f"{where}:stray-file", f"unexpected file {n!r} after the save", tag)
     if case["api"] == "sharded":
         return _oracle_sharded(part, case, obs, fault, mode, where, tag)
@@ -807,14 +934,15 @@ def oracle(part, case: dict, obs: dict, fault, mode: str) -> None:
     gotb = None if got is None else got[1]
     if gotb != old and gotb != new:
         part.fail(f"{where}:dest-damaged", "destination holds neither its previous bytes nor the complete new bytes", {**tag, "got": gotb})
-    if mode == "crash":
+    if mode in ("crash", "exn-crash"):
         return
     trace = obs["trace"]
     replaced = any(ev[0].rstrip("!") == "replace" and not ev[-1] for ev in trace)
     cleanup_failed = any(ev[0].rstrip("!") in ("remove", "rmdir") and ev[-1] for ev in trace)
     raised = obs["raised"] is not None
     failed_kinds = {ev[0].rstrip("!") for ev in trace if ev[-1]}
-    if raised and replaced and failed_kinds - {"remove", "rmdir", "invalidate"}:
+    # (clean-up and the invalidation loop — incl. its samefile test — come after the new file is in place)
+    if raised and replaced and failed_kinds - {"remove", "rmdir", "invalidate", "samefile"}:
         # an effect that belongs to producing the new file failed, yet the rename had already happened
         part.fail(f"{where}:raised-after-replace", "the save failed with an exception in a step other than clean-up although the destination had already been replaced (it no longer holds the previous bytes)", {**tag, "got": gotb})
     if raised and not replaced:
@@ -836,6 +964,8 @@ def oracle(part, case: dict, obs: dict, fault, mode: str) -> None:
     for t, v, r, same in zip(allext, obs["valid"], obs["reads"], obs.get("backing_same", [False] * len(allext))):
         tf = resolve(case, t["ext"]["file"])
         backed = dest in pre and _same_file(pre, tf, dest)
+        if t["ext"].get("invalid") or t["ext"].get("short"):
+            continue  # unreadable already before the save (natural-failure stream)
         if not v and not (replaced and backed):
             part.fail(f"{where}:invalidated-without-replace", "an external tensor was invalidated although its backing file was not replaced", {**tag, "tensor": t["name"]})
         if not v and same:
@@ -856,8 +986,8 @@ def _same_file(pre, a, b):
 def _oracle_sharded(part, case, obs, fault, mode, where, tag):
     pre = case["pre"]
     names = [j[0] for j in case["jobs"]]
-    clash = [n for n in names if n in pre]
-    if mode != "crash":
+    clash = [n for n in names if resolve(case, n) in pre]
+    if mode not in ("crash", "exn-crash"):
         if clash and (obs["trace"] or obs["raised"] is None):
             part.fail(f"{where}:preflight", "a shard destination existed but the sharded save performed effects or did not raise", tag)
         for v in obs["valid"]:
@@ -903,39 +1033,66 @@ def check_case(part, case: dict, crash: bool = True, only=None) -> None:
 
     rng = random.Random(json.dumps(case, sort_keys=True, default=str))
     doubles = []
+    omode = None if only is None else only.get("mode", "exn")
     for f in pts:
-        if only is None or only.get("mode", "exn") == "exn":
+        single = len(_as_list(f)) == 1
+        if omode in (None, "exn"):
             o = run_real(case, f, "exn")
             runs.append((f, "exn", o))
             fs = _as_list(f)
-            if only is None and len(fs) == 1 and len(o["trace"]) > fs[0][0] + 1:
+            if only is None and single and len(o["trace"]) > fs[0][0] + 1:
                 doubles.append((fs[0], o["trace"]))
-        if crash and len(_as_list(f)) == 1 and (only is None or only.get("mode") == "crash"):
+        # exception classes: a BaseException (KeyboardInterrupt-like) instead of OSError at a third of the points
+        if omode == "base" or (only is None and rng.random() < 0.35):
+            runs.append((f, "base", run_real(case, f, "base")))
+        # FileNotFoundError is the class the clean-up suppresses: inject it at the clean-up effects (oracle only)
+        k0 = _as_list(f)[0][0]
+        if omode == "fnf" or (only is None and single and k0 < len(trace0) and trace0[k0][0].rstrip("!") in ("remove", "rmdir")):
+            runs.append((f, "fnf", run_real(case, f, "fnf")))
+        if crash and single and omode in (None, "crash"):
             runs.append((f, "crash", run_real(case, f, "crash")))
-    # fault sequences: a second effect fails while the handlers of the first failure run
-    for f1, tr in rng.sample(doubles, min(2, len(doubles))):
+        if omode == "exn-crash":
+            runs.append((f, "exn-crash", run_real(case, f, "exn-crash")))
+    # fault sequences: a second effect fails (or the process dies) while the handlers of the first failure run
+    for j, (f1, tr) in enumerate(rng.sample(doubles, min(2, len(doubles)))):
         k2 = rng.randrange(f1[0] + 1, len(tr))
         f = (f1, (k2, 0))
         runs.append((f, "exn", run_real(case, f, "exn")))
+        if crash and j == 0:
+            runs.append((f, "exn-crash", run_real(case, f, "exn-crash")))
+    if case.get("links") and case["api"] != "sharded" and base_obs.get("dest_seen"):
+        # Model `destinationOf` (external_data.py 453-456) vs the destination the code derived
+        table = [[n, t] for n, t, _a in case["links"]]
+        md = lean_batch([{"m": "asave.resolve", "links": table, "requested": case["dest"]}])[0].get("r")
+        seen = base_obs["dest_seen"][0]
+        if md != seen:
+            part.disagree("destination: model != implementation", {"case": case, "fault": None, "mode": "exn"}, md, seen)
     if use_model and case["api"] != "sharded":
         # Model `image` (the "complete new bytes" of C08_new_is_image) vs the bytes the real fault-free save wrote
         big = _big(case)
         chunk = case.get("chunk", 1 << 20)
+        _ALIGN[0] = (case["alignment"], case["align_threshold"]) if case.get("alignment") else None
+        _CASE[0] = case
         img = lean_batch([{"m": "asave.image", "tensors": [_tensor_json(t, off, chunk) for t, off in zip(big, _layout(big))]}])[0].get("r")
         real_new = base_obs["files"].get(_rdest(case))
         if base_obs["raised"] is None and (real_new is None or real_new[1] != img):
             part.disagree("image: model != bytes written by the fault-free save", {"case": case, "fault": None, "mode": "exn"}, img, real_new)
-    reqs = [model_request(case, _as_list(f)) for f, mode, _ in runs if mode == "exn"] if use_model else []
+    par = bool(case.get("workers"))  # schedule dependent: the model gets the writer effects each run observed
+    reqs = [model_request(case, _as_list(f)) for f, mode, _ in runs if mode == "exn"] if use_model and not par else []
+    use_model_for = lambda mode: use_model and mode != "fnf" and not (par and mode in ("crash", "exn-crash"))  # noqa: E731
     outs = iter(lean_batch(reqs)) if reqs else iter([])
     by_fault = {}
+    if par and use_model:
+        idx = [i for i, (f, mode, obs) in enumerate(runs) if mode in ("exn", "base") and len(_as_list(f)) <= 1]
+        answers = lean_batch([model_request(case, _as_list(runs[i][0]), writer=writer_of(runs[i][2])) for i in idx])
+        by_run = dict(zip(idx, answers))
     allext = [t for t in case["tensors"] if t["kind"] == "ext"] + case.get("bystanders", [])
     exts_desc = [t["ext"] for t in allext]
     next0 = len([1 for f in case["pre"].values() if "link" not in f])
     for f, mode, obs in runs:
-        if mode == "exn" and use_model:
+        if mode == "exn" and use_model and not par:
             by_fault[f] = next(outs)
-    for f, mode, obs in runs:
-        nkinds = sorted({ev[0] for ev in trace0})
+    for ri, (f, mode, obs) in enumerate(runs):
         part.case(
             [case, f, mode],
             nontrivial=True,
@@ -951,17 +1108,21 @@ def check_case(part, case: dict, crash: bool = True, only=None) -> None:
             n_effects=min(len(trace0), 40) // 5 * 5,
         )
         oracle(part, case, obs, f, mode)
-        if not use_model:
+        if not use_model_for(mode) or (par and len(_as_list(f)) > 1):
+            # parallel writer + several faults: the index of the second fault depends on how far the other
+            # workers got after the first one (the model stops the block there) -> oracle only
             continue
-        mo = by_fault.get(f)
+        mo = by_run[ri] if par else by_fault.get(f)
         if mo is None:
             mo = by_fault[f] = lean_batch([model_request(case, _as_list(f))])[0]
         if "err" in mo:
             part.disagree("model error " + str(mo["err"]), {"case": case, "fault": f})
             continue
-        if mode == "exn":
+        if mode in ("exn", "base"):
             mtrace = [list(x) for x in mo["trace"]]
-            if mtrace != obs["trace"]:
+            # parallel writer: after a worker's failure the other workers run on until the pool is shut down,
+            # the model leaves the block at once: the traces are compared for fault-free runs only
+            if mtrace != obs["trace"] and not (par and f is not None):
                 part.disagree("effect trace: model != implementation", {"case": case, "fault": f, "mode": mode}, mtrace, obs["trace"])
             if mo["raised"] != (obs["raised"] is not None):
                 part.disagree("raised: model != implementation", {"case": case, "fault": f, "mode": mode}, mo["raised"], obs["raised"])
@@ -984,6 +1145,8 @@ def check_case(part, case: dict, crash: bool = True, only=None) -> None:
                     part.disagree("memory copies of small external tensors: model != implementation", {"case": case, "fault": f, "mode": mode}, want, got)
         else:
             st = mo["crash"] if mo["crash"] is not None else mo["final"]
+            if mode == "exn-crash":
+                st = mo["crashLast"] if mo.get("crashLast") is not None else mo["final"]
             ms = _canon_model_state(st, next0, exts_desc)
             # a crashed process leaves no tensor objects; the temporary file's content depends on
             # user-space buffering and is not compared (the destination and the listing are)
@@ -1127,6 +1290,20 @@ def gen_sharded(rng) -> dict:
     if len(shards) > 1 and rng.random() < 0.4:
         taken = rng.choice(names[1:]) if rng.random() < 0.6 else rng.choice(names)
         pre[taken] = {"bytes": [rng.randrange(256) for _ in range(4)], "mode": 0o644}
+    if len(shards) > 1 and not any(n in pre for n in names) and rng.random() < 0.25:
+        # a shard name is a symlink: dangling (the file behind it is created, the link stays) or to an
+        # existing file (the pre-flight must refuse)
+        ln = rng.choice(names)
+        if "other.data" in pre and rng.random() < 0.4:
+            case["links"] = [[ln, "other.data", False]]
+        else:
+            case["links"] = [[ln, "store/shard.bin", rng.random() < 0.3]]
+        case["label"] = "sharded-link"
+    if len(shards) > 1 and rng.random() < 0.35:
+        # concurrent shard drivers (external_data.py 858-895): effect order is schedule dependent -> oracle only
+        case["workers"] = rng.choice([2, 4])
+        case["model"] = False
+        case["label"] = "sharded-par"
     return finalize(case)
 
 
@@ -1191,6 +1368,108 @@ def gen_links(rng) -> dict:
     return finalize(case)
 
 
+def gen_parallel(rng) -> dict:
+    """The parallel writer (max_workers 2..4, >= 3 tensors written, sometimes a tiny in-flight budget),
+    compared with the model on the schedule each run observed."""
+    for _ in range(50):
+        case = gen_case(rng)
+        if len(_big(case)) >= 3 and not any(t["kind"] == "notofile" for t in case["tensors"]):
+            break
+        extra = [{"kind": rng.choice(["mem", "lazy", "chunky"]), "name": f"x{i}", "id": 0, "bytes": [rng.randrange(256) for _ in range(rng.choice([6, 9, 17]))]} for i in range(3)]
+        for t in extra:
+            if t["kind"] == "chunky":
+                t["sizes"] = [2, len(t["bytes"]) - 2]
+        case["tensors"] = [t for t in case["tensors"] if t["kind"] != "notofile"] + extra
+        finalize(case)
+        if len(_big(case)) >= 3:
+            break
+    case["workers"] = rng.choice([2, 3, 4])
+    if rng.random() < 0.4:
+        case["in_flight"] = rng.choice([1, 8, 64])
+    case["label"] = "parallel"
+    case["threshold"] = 0  # no load-first phase in front of the writer (the "writer" model kind starts at mkdtemp)
+    case["tensors"] = [t for t in case["tensors"] if t["bytes"] or case["api"] == "convert"]
+    return finalize(case)
+
+
+def gen_edge(rng) -> dict:
+    """Edge streams: destination that is a directory / a dangling symlink / behind a symlinked directory / in a
+    sub-directory; tensors that fail by themselves (invalidated, source file too short); aligned layouts with
+    holes; the same tensor object under two names; initializers of a subgraph; os.path calls as fault points."""
+    kind = rng.choice(["dest-dir", "dangling", "dirlink", "subdir", "natural", "aligned", "shared", "subgraph", "pathfault"])
+    case = gen_case(rng, api=rng.choice(["save", "convert"]))
+    case.pop("bystanders", None)
+    pre, dest = case["pre"], case["dest"]
+    hard = "hard.data" in pre
+    case["label"] = kind
+    if kind == "dest-dir":
+        pre.pop("hard.data", None)
+        case["tensors"] = [t for t in case["tensors"] if not (t["kind"] == "ext" and t["ext"]["file"] in (dest, "hard.data"))] or [{"kind": "mem", "name": "t0", "id": 0, "bytes": [1, 2, 3]}]
+        pre[dest] = {"dir": True}
+        case["model"] = False
+    elif kind in ("dangling", "dirlink", "subdir"):
+        pre.pop("hard.data", None)
+        old = pre.pop(dest, None)
+        for t in case["tensors"]:
+            if t["kind"] == "ext" and t["ext"]["file"] in (dest, "hard.data"):
+                t["kind"] = "mem"
+                t.pop("ext")
+        if kind == "dangling":
+            case["links"] = [[dest, "store/new.bin", rng.random() < 0.3]]
+        elif kind == "subdir":
+            case["dest"] = "sub/" + dest
+            case["dirs"] = ["sub"]
+            if old is not None:
+                pre["sub/" + dest] = old
+        else:
+            case["links"] = [["ld", "sub", False]]
+            case["dirs"] = ["sub"]
+            case["dest"] = "ld/" + dest
+            if old is not None:
+                pre["sub/" + dest] = old
+            case["model"] = False  # the model has no directory links
+    elif kind == "natural":
+        srcs = [n for n in pre if "link" not in pre[n]]
+        if not srcs:
+            pre["other.data"] = {"bytes": [5, 6, 7, 8], "mode": 0o644}
+            srcs = ["other.data"]
+        src = rng.choice(srcs)
+        fb = pre[src]["bytes"]
+        t = {"kind": "ext", "name": "bad", "id": 0, "bytes": list(fb)}
+        if rng.random() < 0.5:
+            t["ext"] = {"file": src, "off": 0, "len": len(fb), "mapped": False, "abs": hard, "invalid": True}
+        else:
+            t["ext"] = {"file": src, "off": 1, "len": len(fb) + 3, "mapped": False, "abs": hard, "short": True}
+            t["bytes"] = fb[1:] + [0, 0, 0, 0]
+        case["tensors"].insert(rng.randrange(len(case["tensors"]) + 1), t)
+        case["threshold"] = 0
+        case["model"] = False
+    elif kind == "aligned":
+        case["alignment"] = rng.choice([1, 4096, 8192])
+        case["align_threshold"] = rng.choice([0, 2, 6])
+        case["tensors"] = case["tensors"][:3]
+    elif kind == "shared":
+        i = rng.randrange(len(case["tensors"]))
+        src = case["tensors"][i]
+        dup = {k: (dict(v) if isinstance(v, dict) else v) for k, v in src.items()}
+        dup["name"] = "dup"
+        dup["same_as"] = i
+        case["tensors"].append(dup)
+        if src["kind"] == "ext" or case["api"] == "convert":
+            case["model"] = src["kind"] != "ext"
+    elif kind == "subgraph":
+        case["api"] = "save"
+        case["threshold"] = rng.choice([0, 2])
+        for j in range(rng.choice([1, 2])):
+            case["tensors"].append({"kind": rng.choice(["mem", "chunky"]), "name": f"s{j}", "id": 0, "sub": True, "bytes": [rng.randrange(256) for _ in range(rng.choice([1, 5, 9]))]})
+            if case["tensors"][-1]["kind"] == "chunky":
+                case["tensors"][-1]["sizes"] = [len(case["tensors"][-1]["bytes"])]
+    else:
+        case["pathfaults"] = True
+        case["model"] = False
+    return finalize(case)
+
+
 def gen_nul(rng) -> dict:
     """An external tensor whose location contains a NUL byte: os.path.samefile raises ValueError while
     the overwritten tensors are collected (oracle only; the model has no such path)."""
@@ -1226,6 +1505,31 @@ def finalize(case: dict) -> dict:
 _BASE = [None]  # per-run scratch directory; every real directory is created below it
 
 
+def _new_base() -> str:
+    """Scratch directory of this run (`c08run-<pid>-...`); removes those of runs whose process is gone."""
+    tmp = tempfile.gettempdir()
+    for n in os.listdir(tmp):
+        if n.startswith("c08run-"):
+            parts = n.split("-")
+            alive = False
+            if len(parts) >= 3 and parts[1].isdigit():
+                try:
+                    os.kill(int(parts[1]), 0)
+                    alive = True
+                except ProcessLookupError:
+                    alive = False
+                except PermissionError:
+                    alive = True
+            else:  # old naming: stale when untouched for an hour
+                try:
+                    alive = (time.time() - os.stat(os.path.join(tmp, n)).st_mtime) < 3600
+                except OSError:
+                    alive = True
+            if not alive:
+                shutil.rmtree(os.path.join(tmp, n), ignore_errors=True)
+    return tempfile.mkdtemp(prefix=f"c08run-{os.getpid()}-")
+
+
 def _merge_part(dst, src: dict) -> None:
     dst["evaluations"] += src["evaluations"]
     dst["distinct"] += src["distinct"]
@@ -1238,9 +1542,11 @@ def _merge_part(dst, src: dict) -> None:
     dst["failures"] += src["failures"][: max(0, 10 - len(dst["failures"]))]
 
 
-def _isolated(case: dict, crash: bool, only=None, timeout: int = 900) -> dict:
-    """Check one case in a forked child: real code that dies with a signal (e.g. SIGBUS when an mmap of
-    a truncated file is read) must not take the harness down, it is an observation."""
+def _isolated(case: dict, crash: bool, only=None, timeout: int = 900, attempt: int = 0) -> dict:
+    """Check one case in a forked child: real code that dies with SIGBUS/SIGSEGV (an mmap of a file that was
+    truncated in place is read) must not take the harness down, it is an observation. Any other abnormal end
+    of the child (OOM kill, a BaseException in the harness, ...) is an infrastructure problem: one retry, then
+    Infra (exit 2) — never a violation."""
     import signal
 
     r, w = os.pipe()
@@ -1286,11 +1592,15 @@ def _isolated(case: dict, crash: bool, only=None, timeout: int = 900) -> dict:
         return out
     if code == -signal.SIGALRM:
         raise Infra(f"case timed out after {timeout}s")
+    if code not in (-signal.SIGBUS, -signal.SIGSEGV):
+        if attempt == 0:
+            return _isolated(case, crash, only, timeout, attempt=1)
+        raise Infra(f"the child checking a case ended abnormally twice (exit status {code}; negative = signal)")
     out.case([case, "process-died"], api=case["api"], mode="died")
     out.fail(
-        f"{case['api']}:process-killed:{code}",
-        f"the process running the saves of this case died (exit status {code}; negative = signal, -7 = SIGBUS: "
-        "an mmap of a file that was truncated in place was read)",
+        f"{case['api']}:process-killed:{'SIGBUS' if code == -signal.SIGBUS else 'SIGSEGV'}",
+        "the process running the saves of this case was killed by a memory fault: an mmap of a data file that was "
+        "truncated or rewritten in place was read (an external tensor backed by the destination)",
         {"case": case},
     )
     return out
@@ -1352,7 +1662,11 @@ def run(ctx: Ctx) -> None:
         cases.append(gen_variant(ctx.rng))
     for _ in range(ctx.pick(24, 200)):
         cases.append(gen_links(ctx.rng))
-    base = tempfile.mkdtemp(prefix="c08run-")
+    for _ in range(ctx.pick(10, 100)):
+        cases.append(gen_parallel(ctx.rng))
+    for _ in range(ctx.pick(18, 180)):
+        cases.append(gen_edge(ctx.rng))
+    base = _new_base()
     try:
         wp = Part()
         check_writeat(wp, ctx.rng, ctx.pick(300, 3000), base)
@@ -1372,7 +1686,7 @@ def replay(ctx: Ctx, obj: dict) -> None:
         items = [d.get("case") or {} for d in obj.get("correspondence_disagreements", [])]
     else:
         items = [obj.get("case", obj)]
-    base = tempfile.mkdtemp(prefix="c08run-")
+    base = _new_base()
     _BASE[0] = base
     try:
         for c in items:
